@@ -309,3 +309,35 @@ Theorem C08_attachment_complete :
   forall l : list att, existsb att_is_enc l = false -> att_run l = (sum_yields l, false).
 Proof. exact att_run_plain. Qed.
 Print Assumptions C08_attachment_complete.
+
+(* ---------------------------------------------------------------- PDF: fallback AES before the pages *)
+(* on pypdf's pure-python provider, an encrypted document that gets past the password test reaches the page loop
+   with AES installed — whatever was installed before (fresh process or not), whatever revision *)
+Theorem C08_pdf_aes_installed_before_pages :
+  forall (e : pdf_env) (installed0 inst : bool),
+    on_fallback e = true -> p_is_encrypted (pe_view e) = true ->
+    pdf_decide true e installed0 = PdfPages inst -> inst = true.
+Proof. exact pdf_pages_installed. Qed.
+Print Assumptions C08_pdf_aes_installed_before_pages.
+
+(* the code before fixes/C08-pdf-aesv2-fallback.patch (proactive = false): an AESV2 document (constructor does not
+   touch AES) in a fresh process reaches the pages WITHOUT AES *)
+Theorem C08_pdf_aes_legacy_refuted :
+  exists e, on_fallback e = true /\ p_is_encrypted (pe_view e) = true /\ pdf_decide false e false = PdfPages false.
+Proof.
+  exists {| ctor_needs_aes := false; on_fallback := true;
+            pe_view := {| p_is_encrypted := true; p_decrypt_empty := DecReturns 1 |} |}. vm_compute. auto.
+Qed.
+Print Assumptions C08_pdf_aes_legacy_refuted.
+
+(* the verdict (rejected / pages / dependency error) does not depend on what earlier documents installed *)
+Theorem C08_pdf_decision_history_free :
+  forall (e : pdf_env) (i0 i1 : bool), on_fallback e = true ->
+    match pdf_decide true e i0, pdf_decide true e i1 with
+    | PdfDependency, PdfDependency => True
+    | PdfRejected _, PdfRejected _ => True
+    | PdfPages a, PdfPages b => p_is_encrypted (pe_view e) = true -> a = b
+    | _, _ => False
+    end.
+Proof. exact pdf_decision_history_free. Qed.
+Print Assumptions C08_pdf_decision_history_free.
